@@ -5,7 +5,7 @@ from __future__ import annotations
 import asyncio
 import gc
 
-from .core import EventLog, Tapes, use_repo
+from .core import EventLog, Tapes, use_repo, task_exc
 from .loop import SimLoop, new_loop
 from .model import Obs
 
@@ -175,7 +175,7 @@ class GwWorld:
             self.transport = TCPTransport("gw.sim", 5003)
             t = self.loop.create_task(self.transport.connect())
             self.loop.run_until_idle(10)
-            if not t.done() or t.exception() is not None:
+            if not t.done() or task_exc(t) is not None:
                 raise RuntimeError("simulated TCP connect failed in a fault-free setup")
             self._rx_mark = 0
             peer = self.peer
@@ -225,8 +225,8 @@ class GwWorld:
                                                           persistence_file="/sim/persistence.json"))
             t = self.loop.create_task(self.gateway.__aenter__())
             self.loop.run_until_idle(50)
-            if not t.done() or t.exception() is not None:
-                raise RuntimeError(f"could not enter the gateway context: {t.exception() if t.done() else 'hang'}")
+            if not t.done() or task_exc(t) is not None:
+                raise RuntimeError(f"could not enter the gateway context: {task_exc(t) if t.done() else 'hang'}")
         elif cfg.get("default_config") and cfg.get("metric", True):
             self.gateway = Gateway(self.transport)  # built without a config: metric by default
         else:
@@ -263,8 +263,8 @@ class GwWorld:
         elif task.cancelled():
             obs = Obs("err", cls="CancelledError", bases=("CancelledError", "BaseException"),
                       writes=writes, nodes=nodes, version=version, proto=proto)
-        elif task.exception() is not None:
-            exc = task.exception()
+        elif task_exc(task) is not None:
+            exc = task_exc(task)
             if isinstance(exc, StopAsyncIteration):
                 obs = Obs("stop", writes=writes, nodes=nodes, version=version, proto=proto)
             else:
@@ -372,8 +372,8 @@ class GwWorld:
             t.cancel()
             self.loop.run_until_idle(0)
             return "hang"
-        if t.exception() is not None:
-            return type(t.exception()).__name__
+        if task_exc(t) is not None:
+            return type(task_exc(t)).__name__
         return None
 
     def restart(self, read_fault: bool = False) -> list[str]:
@@ -393,7 +393,7 @@ class GwWorld:
                 t.cancel()
                 self.loop.run_until_idle(0)
                 return "hang"
-            return type(t.exception()).__name__ if t.exception() is not None else None
+            return type(task_exc(t)).__name__ if task_exc(t) is not None else None
 
         seen.append(run(self.gateway.__aexit__(None, None, None)))
         self.log("app", "process-restart", read_fault)
